@@ -23,6 +23,8 @@ import (
 	"unicode"
 
 	"github.com/gorilla/css/scanner"
+	"github.com/inbucket/inbucket/v3/pkg/webui/sanitize"
+	"verifharness/c18policy"
 	xhtml "golang.org/x/net/html"
 )
 
@@ -31,6 +33,83 @@ func init() {
 	fpRegister("pkg/webui/sanitize/html.go", "HTML", "sanitizeStyleTags", "styleTagFilter")
 	fpRegister("pkg/server/web/helpers.go", "TextToHTML", "WrapURL")
 	register("SanitizeConsts.v", genSanitizeConsts)
+	register("SanitizePolicy.v", genSanitizePolicy)
+}
+
+// genSanitizePolicy dumps the tables of the bluemonday policy sanitize.HTML applies (read by
+// reflection from the real policy object) for the token-level model coq/Model/SanitizePolicy.v.
+// The repository is imported, not parsed: the policy is whatever the package builds at init.
+func genSanitizePolicy(repo string) (string, error) {
+	d, err := c18policy.Read(sanitize.VerifPolicy())
+	if err != nil {
+		return "", err
+	}
+	if len(d.Unsupported) > 0 {
+		return "", fmt.Errorf("the bluemonday policy uses features the C18 policy model does not cover: %s", strings.Join(d.Unsupported, ", "))
+	}
+	var b strings.Builder
+	b.WriteString(coqHeader("C18: tables of the bluemonday policy (elements, attributes with pattern ids, URL schemes, flags), read by reflection."))
+	var fl []string
+	for k := range d.Flags {
+		fl = append(fl, k)
+	}
+	sort.Strings(fl)
+	for _, k := range fl {
+		fmt.Fprintf(&b, "Definition bm_%s : bool := %v.\n", k, d.Flags[k])
+	}
+	fmt.Fprintf(&b, "\n(* %d distinct attribute value patterns; a pattern is referred to by its index *)\nDefinition bm_npatterns : nat := %d.\n", len(d.Patterns), len(d.Patterns))
+	for i, ptn := range d.Patterns {
+		fmt.Fprintf(&b, "(* %2d: %s *)\n", i, strings.NewReplacer("*)", "* )", "(*", "( *", "\"", "''").Replace(ptn))
+	}
+	pol := func(xs []int) string {
+		parts := make([]string, len(xs))
+		for i, x := range xs {
+			if x < 0 {
+				parts[i] = "None"
+			} else {
+				parts[i] = fmt.Sprintf("Some %d%%nat", x)
+			}
+		}
+		return "[" + strings.Join(parts, "; ") + "]"
+	}
+	attrs := func(m map[string][]int) string {
+		var ks []string
+		for k := range m {
+			ks = append(ks, k)
+		}
+		sort.Strings(ks)
+		parts := make([]string, len(ks))
+		for i, k := range ks {
+			parts[i] = fmt.Sprintf("(%s (* %s *), %s)", coqStr(k), k, pol(m[k]))
+		}
+		return "[" + strings.Join(parts, ";\n      ") + "]"
+	}
+	var els []string
+	for k := range d.ElAttrs {
+		els = append(els, k)
+	}
+	sort.Strings(els)
+	var parts []string
+	for _, el := range els {
+		parts = append(parts, fmt.Sprintf("(%s (* %s *),\n     %s)", coqStr(el), el, attrs(d.ElAttrs[el])))
+	}
+	fmt.Fprintf(&b, "\nDefinition bm_el_attrs : list (list N * list (list N * list (option nat))) :=\n  [%s].\n", strings.Join(parts, ";\n   "))
+	fmt.Fprintf(&b, "\nDefinition bm_global_attrs : list (list N * list (option nat)) :=\n  %s.\n", attrs(d.GlobalAttrs))
+	fmt.Fprintf(&b, "\nDefinition bm_no_attrs_ok : list (list N) :=\n  %s.\n", coqStrList(d.NoAttrsOK))
+	fmt.Fprintf(&b, "\nDefinition bm_skip_content : list (list N) :=\n  %s.\n", coqStrList(d.SkipContent))
+	fmt.Fprintf(&b, "\nDefinition bm_url_schemes : list (list N) :=\n  %s.\n", coqStrList(d.Schemes))
+	// strings.TrimSpace: the white space runes, as UTF-8
+	var sp []string
+	for r := rune(0); r <= unicode.MaxRune; r++ {
+		if r >= 0xD800 && r <= 0xDFFF {
+			continue
+		}
+		if unicode.IsSpace(r) {
+			sp = append(sp, string(r))
+		}
+	}
+	fmt.Fprintf(&b, "\n(* UTF-8 encodings of the runes unicode.IsSpace accepts (strings.TrimSpace in Policy.Sanitize) *)\nDefinition unicode_spaces : list (list N) :=\n  %s.\n", coqStrList(sp))
+	return b.String(), nil
 }
 
 func coqPairList(ps [][2]string) string {
